@@ -5,6 +5,7 @@ Line protocol for C07 (see harness/c07/main.go):
   (seq|strict) n <N> m <M> cap <C> ops <op>*           model + holds
   par n <N> m <M> cap <C> ops <op>* (th <op>*)+         holds only (concurrent block, no model line)
   op: A c | H c x t | Q c t | F c | HS c x t | QS c t | K x c | S | O c | B c | X c | R c | U c | T c | P c
+      | XF c | RF c | SF | BF c   (X/R/S/B while the cloud-control store fails)
   obs: cl (<conn> <clientID> <auth> <same> | - - - -){M} cn ((<clientID> <auth> | - -) <inS> <inT> <closed>){N}
        la <k> <conn>{k} ct <Count> <Total> <Control> <Tunnel> <Active>
 -/
@@ -14,43 +15,51 @@ open Tunnox.C07
 def ctlOf : String → Option Bool
   | "c" => some true | "t" => some false | _ => none
 
-/-- parse ops until a non-op token; returns ops and the rest -/
-def parseOps : Nat → List String → Option (List Op × List String)
+/-- parse ops until a non-op token; returns the ops, each with its cloud-control fault flag
+(`XF c`, `RF c`, `SF`, `BF c` = `X c`, `R c`, `S`, `B c` while the cloud-control store fails), and the rest -/
+def parseFOps : Nat → List String → Option (List FOp × List String)
   | 0, ts => some ([], ts)
   | fuel + 1, ts =>
     match ts with
-    | "S" :: r => do let (o, r') ← parseOps fuel r; pure (Op.sweep :: o, r')
+    | "S" :: r => do let (o, r') ← parseFOps fuel r; pure ((Op.sweep, false) :: o, r')
+    | "SF" :: r => do let (o, r') ← parseFOps fuel r; pure ((Op.sweep, true) :: o, r')
     | "H" :: c :: x :: t :: r => do
       let c ← c.toNat?; let x ← x.toNat?; let t ← ctlOf t
-      let (o, r') ← parseOps fuel r
-      pure ((if x = 0 then Op.hsFail c else Op.hsAuth c x t) :: o, r')
+      let (o, r') ← parseFOps fuel r
+      pure (((if x = 0 then Op.hsFail c else Op.hsAuth c x t), false) :: o, r')
     | "HS" :: c :: x :: t :: r => do
       let c ← c.toNat?; let x ← x.toNat?; let t ← ctlOf t
-      let (o, r') ← parseOps fuel r
-      pure ((if x = 0 then Op.hsFail c else Op.hsAuth c x t) :: Op.hsFin c :: o, r')
+      let (o, r') ← parseFOps fuel r
+      pure (((if x = 0 then Op.hsFail c else Op.hsAuth c x t), false) :: (Op.hsFin c, false) :: o, r')
     | "Q" :: c :: t :: r => do
       let c ← c.toNat?; let t ← ctlOf t
-      let (o, r') ← parseOps fuel r
-      pure (Op.hsChal c t :: o, r')
+      let (o, r') ← parseFOps fuel r
+      pure ((Op.hsChal c t, false) :: o, r')
     | "QS" :: c :: t :: r => do
       let c ← c.toNat?; let t ← ctlOf t
-      let (o, r') ← parseOps fuel r
-      pure (Op.hsChal c t :: Op.hsFin c :: o, r')
+      let (o, r') ← parseFOps fuel r
+      pure ((Op.hsChal c t, false) :: (Op.hsFin c, false) :: o, r')
     | "K" :: x :: c :: r => do
       let x ← x.toNat?; let c ← c.toNat?
-      let (o, r') ← parseOps fuel r
-      pure (Op.kick x c :: o, r')
+      let (o, r') ← parseFOps fuel r
+      pure ((Op.kick x c, false) :: o, r')
     | k :: c :: r =>
       match (match k with
-             | "A" => some Op.accept | "F" => some Op.hsFin | "O" => some Op.age | "B" => some Op.beat
-             | "X" => some Op.close | "R" => some Op.remove | "U" => some Op.unreg | "T" => some Op.treg
-             | "P" => some Op.brk | _ => none) with
-      | some mk => do
+             | "A" => some (Op.accept, false) | "F" => some (Op.hsFin, false) | "O" => some (Op.age, false)
+             | "B" => some (Op.beat, false) | "X" => some (Op.close, false) | "R" => some (Op.remove, false)
+             | "U" => some (Op.unreg, false) | "T" => some (Op.treg, false) | "P" => some (Op.brk, false)
+             | "BF" => some (Op.beat, true) | "XF" => some (Op.close, true) | "RF" => some (Op.remove, true)
+             | _ => none) with
+      | some (mk, f) => do
         let c ← c.toNat?
-        let (o, r') ← parseOps fuel r
-        pure (mk c :: o, r')
+        let (o, r') ← parseFOps fuel r
+        pure ((mk c, f) :: o, r')
       | none => some ([], ts)
     | _ => some ([], ts)
+
+/-- the same without the fault flags (concurrent blocks and fine cases only need the operations) -/
+def parseOps (fuel : Nat) (ts : List String) : Option (List Op × List String) :=
+  (parseFOps fuel ts).map (fun p => (p.1.map Prod.fst, p.2))
 
 structure Case where
   kind : String
@@ -58,6 +67,7 @@ structure Case where
   m : Nat
   cap : Nat
   pre : List Op
+  fpre : List FOp
   threads : List (List Op)
 
 def parseThreads : Nat → List String → Option (List (List Op))
@@ -73,9 +83,9 @@ def parseCase : List String → Option Case
   | kind :: "n" :: n :: "m" :: m :: "cap" :: cap :: "ops" :: r => do
     let n ← n.toNat?; let m ← m.toNat?; let cap ← cap.toNat?
     if n > 16 || m > 16 then none
-    let (pre, r') ← parseOps (r.length + 1) r
+    let (fpre, r') ← parseFOps (r.length + 1) r
     let ths ← parseThreads (r'.length + 1) r'
-    pure ⟨kind, n, m, cap, pre, ths⟩
+    pure ⟨kind, n, m, cap, fpre.map Prod.fst, fpre, ths⟩
   | _ => none
 
 def bit : String → Option Bool
@@ -176,7 +186,7 @@ def runModel (ts : List String) : String :=
   match parseCase ts with
   | some c =>
     if c.kind == "seq" || c.kind == "strict" then
-      if c.threads.isEmpty then obsStr (obsOf (run .repaired (init c.n c.cap) c.pre) c.m) else "bad-case"
+      if c.threads.isEmpty then obsStr (obsOf (runF .repaired (init c.n c.cap) c.fpre) c.m) else "bad-case"
     else "bad-case"
   | none => "bad-case"
 
@@ -192,8 +202,8 @@ def runHolds (caseToks obsToks : List String) : String :=
     match parseObs c.n c.m obsToks with
     | none => "false"
     | some o =>
-      if c.kind == "seq" && c.threads.isEmpty then boolStr (holds c.n c.m c.cap c.pre false o)
-      else if c.kind == "strict" && c.threads.isEmpty then boolStr (holds c.n c.m c.cap c.pre true o)
+      if c.kind == "seq" && c.threads.isEmpty then boolStr (holdsF c.n c.m c.cap c.fpre false o)
+      else if c.kind == "strict" && c.threads.isEmpty then boolStr (holdsF c.n c.m c.cap c.fpre true o)
       else if c.kind == "par" then boolStr (holdsPar c.n c.m (c.pre ++ c.threads.flatten) o)
       else "bad-case"
   | none => "bad-case"
